@@ -13,6 +13,8 @@ use std::time::Duration;
 
 pub const STALL: Duration = Duration::from_secs(8);
 pub const OUTER: Duration = Duration::from_secs(120);
+/// overrun of a `go movetime` budget, on the engine's own clock, beyond which a completed iteration is a violation
+pub const TIME_OVERRUN_MS: u64 = 20_000;
 /// CPU time (1/100 s) the engine's main thread may use between isready and readyok
 pub const MAIN_THREAD_BUSY_TICKS: u64 = 1_500;
 
@@ -214,8 +216,28 @@ impl<'a> Session<'a> {
             self.book_since_go = true;
         } else if l.starts_with("info score") {
             self.last_score = Some(l.to_string());
-        } else if l.starts_with("info time") && self.stop_pending {
-            self.info_after_stop += 1;
+        } else if l.starts_with("info time") {
+            if self.stop_pending {
+                self.info_after_stop += 1;
+            }
+            // "... when the time is up": the engine's own report "info time <ms> depth <d>" marks an iteration that
+            // completed <ms> into the search. For a go with `movetime T` that no later command ended, an iteration
+            // completed more than TIME_OVERRUN_MS beyond T means the budget did not end the search (judged on the
+            // engine's own clock; a search stuck inside one iteration reports nothing and is not judged here)
+            let ms = l.split_whitespace().nth(2).and_then(|v| v.parse::<f64>().ok()).unwrap_or(0.0) as u64;
+            let mut overrun: Option<String> = None;
+            if let Some(g) = self.gos.iter().find(|g| !g.answered) {
+                let t: Vec<&str> = g.spec.split_whitespace().collect();
+                let budget = t.iter().position(|x| *x == "movetime").and_then(|i| t.get(i + 1)).and_then(|v| v.parse::<u64>().ok());
+                if let Some(b) = budget {
+                    if !g.terminated && !self.lenient && ms > b + TIME_OVERRUN_MS && g.sent.elapsed().as_millis() as u64 > b + TIME_OVERRUN_MS {
+                        overrun = Some(format!("go {} on {}: the engine reports an iteration completed {} ms into the search, {} ms beyond its time, and no bestmove has been printed", g.spec, g.pos.fen(), ms, ms - b));
+                    }
+                }
+            }
+            if let Some(msg) = overrun {
+                self.fail("missing-bestmove", msg);
+            }
         }
     }
 
@@ -314,7 +336,9 @@ impl<'a> Session<'a> {
                 false
             }
             Wait::Slow | Wait::Busy => {
-                self.out.inconclusive = Some("bestmove did not arrive within the outer watchdog while the process was still busy".into());
+                if self.out.violation.is_none() {
+                    self.out.inconclusive = Some("bestmove did not arrive within the outer watchdog while the process was still busy".into());
+                }
                 false
             }
         }
